@@ -22,4 +22,5 @@ def run(tier, seed):
              (O.write_lst('C15'),), (O.to_output_addr('C15'),)] + [(c,) for c in O.in1d('C15')] + \
             [(T.run('C15', drop=('success=>initialisation-test-not-failed',)),)]
     run_contracts(pack, items)
+    O.bounded_loader_roundtrip(pack, 'C15')
     return pack.finish()
